@@ -13,6 +13,12 @@ for _k in ("OMP_NUM_THREADS", "OPENBLAS_NUM_THREADS", "MKL_NUM_THREADS", "NUMBA_
            "VECLIB_MAXIMUM_THREADS", "NUMEXPR_NUM_THREADS"):
     os.environ[_k] = "1"
 
+# numba JIT off: the jitted kernels (Fock two-mode kernels, thewalrus gate matrices) then run as the *same Python source*,
+# interpreted.  At the sizes simulated here (<= 4 modes, cutoff <= 8) that is as fast as compiled code, and it removes
+# ~1 s of compilation per (kernel, array rank, memory layout) signature from every forked child.  SFSIM_JIT=1 re-enables it.
+if os.environ.get("SFSIM_JIT", "0") != "1":
+    os.environ["NUMBA_DISABLE_JIT"] = "1"
+
 REPO = os.environ.get("SFSIM_REPO", "/repo")
 VERIF = os.path.dirname(os.path.dirname(os.path.abspath(__file__)))
 
